@@ -12,6 +12,7 @@ directed by the order (`key.length`).  A `PolynomialTensor` is an insertion-orde
 import OFV.Core.GQ
 import OFV.Core.Dict
 import OFV.Model.Symbolic
+import OFV.Model.C03
 import OFV.Spec.C08
 
 namespace OFV
@@ -238,43 +239,10 @@ def rotateBasis (a : PT) (R : Mat) : PT :=
     | [] => (k, t)
     | _ => (k, generalBasisChange t R k)⟩
 
-/-! ### normal_ordered (fermions) — term_reordering.py -/
-
-/-- state of the double loop of `normal_ordered_ladder_term`; `.error acc` = early `return` -/
-abbrev NOState := Except Op (Term × GQ × Op)
-
-def noTerm (tol : Rat) : Nat → Term → GQ → Op
-  | 0, _, _ => []
-  | fuel + 1, term, coefficient =>
-    let pairs : List Nat := (List.range term.length).flatMap fun i =>
-      if i = 0 then [] else (List.range i).reverse.map (· + 1)
-    let step (st : NOState) (j : Nat) : NOState :=
-      match st with
-      | .error acc => .error acc
-      | .ok (term, coef, acc) =>
-        match term[j]?, term[j - 1]? with
-        | some right, some left =>
-          if right.2 ≠ 0 ∧ left.2 = 0 then
-            let term' := (term.set (j - 1) right).set j left
-            let coef' := coef * (-1)
-            if right.1 = left.1 then
-              let newTerm := term'.take (j - 1) ++ term'.drop (j + 1)
-              .ok (term', coef', Model.iadd tol acc (noTerm tol fuel newTerm ((-1) * coef')))
-            else .ok (term', coef', acc)
-          else if right.2 = left.2 then
-            if right.1 = left.1 then .error acc
-            else if right.1 > left.1 then
-              .ok ((term.set (j - 1) right).set j left, coef * (-1), acc)
-            else .ok (term, coef, acc)
-          else .ok (term, coef, acc)
-        | _, _ => .ok (term, coef, acc)
-    match pairs.foldl step (.ok (term, coefficient, [])) with
-    | .error acc => acc
-    | .ok (term, coef, acc) => Model.iadd tol acc (mk .fermion term coef)
+/-! ### normal_ordered (fermions) — term_reordering.py: the Model of property C03 -/
 
 /-- `normal_ordered(FermionOperator)` -/
-def normalOrdered (tol : Rat) (A : Op) : Op :=
-  A.foldl (fun acc (t, c) => Model.iadd tol acc (noTerm tol (t.length + 1) t c)) []
+def normalOrdered (tol : Rat) (A : Op) : Op := Model.C03.normalOrdered tol .fermion A
 
 /-- `count_qubits(FermionOperator)` -/
 def countQubits (A : Op) : Nat :=
@@ -291,20 +259,23 @@ def resolveN (A : Op) (n? : Option Nat) : Except Err Nat :=
 /-- `InteractionOperator(constant, one_body, two_body)` -/
 def mkIO (c : GQ) (one two : Tensor) : PT := mkPT [([], .s c), ([1, 0], one), ([1, 1, 0, 0], two)]
 
+/-- the body of the loop of `get_interaction_operator` over the normal-ordered terms -/
+def ioStep (tol : Rat) (st : GQ × Tensor × Tensor) (tc : Term × GQ) : Except Err (GQ × Tensor × Tensor) :=
+  if GQ.isSmall tol tc.2 then .ok st
+  else match tc.1 with
+  | [] => .ok (tc.2, st.2.1, st.2.2)
+  | [(p, 1), (q, 0)] => .ok (st.1, tset [p, q] tc.2 st.2.1, st.2.2)
+  | [(p, 1), (q, 1), (r, 0), (s, 0)] => .ok (st.1, st.2.1, tset [p, q, r, s] tc.2 st.2.2)
+  | _ => Except.error Err.interactionOperatorError
+
+/-- the scatter loop: `constant`, `one_body[p, q]`, `two_body[p, q, r, s]` are ASSIGNED (`=`) -/
+def scatterIO (tol : Rat) (n : Nat) (no : Op) : Except Err (GQ × Tensor × Tensor) :=
+  no.foldlM (ioStep tol) (0, tzeros n 2, tzeros n 4)
+
 /-- `get_interaction_operator` -/
 def getInteractionOperator (tol : Rat) (A : Op) (n? : Option Nat) : Except Err PT := do
   let n ← resolveN A n?
-  let no := normalOrdered tol A
-  let init : GQ × Tensor × Tensor := (0, tzeros n 2, tzeros n 4)
-  let r ← no.foldlM (fun (st : GQ × Tensor × Tensor) (tc : Term × GQ) =>
-    let (term, c) := tc
-    let (const, one, two) := st
-    if GQ.isSmall tol c then .ok st
-    else match term with
-    | [] => .ok (c, one, two)
-    | [(p, 1), (q, 0)] => .ok (const, tset [p, q] c one, two)
-    | [(p, 1), (q, 1), (r, 0), (s, 0)] => .ok (const, one, tset [p, q, r, s] c two)
-    | _ => Except.error Err.interactionOperatorError) init
+  let r ← scatterIO tol n (normalOrdered tol A)
   .ok (mkIO r.1 r.2.1 r.2.2)
 
 def mget (t : Tensor) (p q : Nat) : GQ := (tget [p, q] t).getD 0
